@@ -488,6 +488,20 @@ impl Norm {
         for (i, l) in lets.into_iter().enumerate() {
             block.stmts.insert(1 + i, l); // after the header marker
         }
+        // N29: `mut self` receiver (unsupported by Verus) -> plain `self` moved into a mutable local `__self` that the body uses
+        // instead (a parameter's `mut` is a binding mode of the callee's local, not part of the signature)
+        let mut_self = sig.inputs.iter().any(|a| matches!(a, syn::FnArg::Receiver(r) if r.reference.is_none() && r.mutability.is_some()));
+        if mut_self {
+            for a in sig.inputs.iter_mut() { if let syn::FnArg::Receiver(r) = a { r.mutability = None; } }
+            struct Ren;
+            impl VisitMut for Ren {
+                fn visit_expr_path_mut(&mut self, p: &mut syn::ExprPath) { if p.path.is_ident("self") { p.path = parse_quote!(__self); } }
+                fn visit_macro_mut(&mut self, _: &mut syn::Macro) {}
+            }
+            Ren.visit_block_mut(block);
+            block.stmts.insert(1, parse_quote!(let mut __self = self;));
+            self.rules.push(RuleApp { rule: "N29".into(), line: 0, note: "`mut self` receiver -> `self` moved into `let mut __self`".into() });
+        }
         // strip attributes on params
         for a in sig.inputs.iter_mut() {
             match a {
